@@ -396,6 +396,18 @@ func (s *Specs) loadSpecFile(w *World, path string, pkg *packages.Package, trust
 			key := "functype " + qualifyTypeName(rest, pkg, w)
 			cur = &Contract{Key: key, Pkg: pkg, Loops: map[int]*LoopSpec{}, File: path, Line: l.line, RecvName: "fn", Closures: map[int][]GhostUpdate{}}
 			s.Contracts[key] = cur
+		case "fieldfunc":
+			// fieldfunc (T).Field : contract of calls through the function value stored in that struct field
+			if pkg == nil {
+				return fail(l, "no package in scope")
+			}
+			mm := regexp.MustCompile(`^\(\*?([^)]+)\)\.(\w+)$`).FindStringSubmatch(rest)
+			if mm == nil {
+				return fail(l, "fieldfunc (T).Field")
+			}
+			key := "fieldfunc " + qualifyTypeName(mm[1], pkg, w) + "." + mm[2]
+			cur = &Contract{Key: key, Pkg: pkg, Loops: map[int]*LoopSpec{}, File: path, Line: l.line, RecvName: "fn", Closures: map[int][]GhostUpdate{}}
+			s.Contracts[key] = cur
 		case "property":
 			if cur == nil {
 				return fail(l, "property outside contract")
